@@ -29,6 +29,14 @@ REPLAYS = VERIF / "replays"
 REPO = Path(os.environ.get("VERIF_REPO", "/repo"))  # override only for scratch worktrees (seeding, builders); registered checks use /repo
 REPO_SRC = [str(REPO / "packages/geff/src"), str(REPO / "packages/geff-spec/src")]
 NCPU = max(2, min(16, os.cpu_count() or 4))
+# A scratch worktree (seeded change, builder) gets a PRIVATE copy of the Coq tree: Gen/*.v is regenerated from the source under test,
+# so two checks of different source trees running at the same time must not share it (a compile of one tree's Gen/Consts.v had
+# finished after the other tree's file was written: a .vo newer than, and different from, its .v).
+MAIN_COQ = COQ
+if str(REPO) != "/repo":
+    import hashlib as _hashlib
+
+    COQ = WORK / ("coq-" + _hashlib.sha1(str(REPO).encode()).hexdigest()[:10])
 
 TRUSTED_BASE = [
     "Coq 8.16.1 kernel + its VM (vm_compute used in finite-table lemmas, _refuted witnesses and to "
@@ -235,12 +243,31 @@ def run(cmd, cwd=None, timeout=600, env=None) -> subprocess.CompletedProcess:
     return subprocess.run(cmd, cwd=cwd, timeout=timeout, capture_output=True, text=True, env=env)
 
 
+def prepare_coq_tree() -> None:
+    """For a scratch worktree: bring the private Coq tree up to date with /verif/coq (sources and compiled files; incremental)."""
+    if COQ == MAIN_COQ:
+        return
+    import fcntl
+
+    COQ.parent.mkdir(parents=True, exist_ok=True)
+    with open(MAIN_COQ / ".lock", "w") as f:
+        fcntl.flock(f, fcntl.LOCK_EX)          # not while the main tree is being built
+        try:
+            # everything, Gen and compiled files included: the translator then rewrites Gen/*.v only where the source under test gives
+            # another text, which makes exactly those files (and, through make, what depends on them) newer than their compiled form
+            subprocess.run(["rsync", "-a", "--delete", "--exclude", ".lock", f"{MAIN_COQ}/", f"{COQ}/"], check=True)
+        finally:
+            fcntl.flock(f, fcntl.LOCK_UN)
+
+
 def regenerate_gen() -> list[str]:
     """Run the translator (source -> coq/theories/Gen/*.v).  Returns error strings (fail-closed)."""
+    prepare_coq_tree()
     from harness import translate
 
     try:
-        translate.main()
+        with CoqLock():
+            translate.main()
         return []
     except Exception as e:  # translator refuses: obligation broken
         return [f"translator: {type(e).__name__}: {e}"]
@@ -323,6 +350,7 @@ def audit_property(prop: str) -> dict:
 
     Returns dict(obligations, discharged, failed: [names/reasons], theorems: [...], log).
     """
+    prepare_coq_tree()
     pfile = COQ / "props" / f"{prop}.v"
     names = THEOREM_RE.findall(strip_coq_comments(pfile.read_text()))
     res = {"obligations": len(names), "discharged": 0, "failed": [], "theorems": names, "log": ""}
